@@ -80,19 +80,8 @@ func Configs(hasIface bool) []Cfg {
 // Representable reports whether the settings of c can represent the interface-slot content described by p
 // (otherwise the outcome is outside what C01 defines and the case is skipped).
 func Representable(c Cfg, p gen.Profile) bool {
-	if c.Long != hio.LongTypeBigInt && p.LongBeyond64 {
-		return false
-	}
-	switch c.Long {
-	case hio.LongTypeInt, hio.LongTypeInt64:
-		if p.LongAboveInt64 {
-			return false
-		}
-	case hio.LongTypeUint, hio.LongTypeUint64:
-		if p.LongNeg {
-			return false
-		}
-	}
+	// (every LongType setting represents every integer since the decoder hands a number that the setting's type
+	// can not hold to the next type that holds it exactly; they used to wrap, and such cases were skipped here)
 	switch c.Real {
 	case hio.RealTypeFloat32:
 		if p.NonF32Double {
